@@ -132,6 +132,28 @@ theorem C07_commit_visible (s : St) (close : Bool) (h : s.obsolete = false) :
   · simp [St.conn, St.commitExpire, hr, ht, Inst.expire]
   · rfl
 
+/-- **every row written through the transaction is known to `commit`** (every history, no hypothesis on the caches of the
+    transaction): in every state a history reaches, a committed row the transaction has written (updated or deleted) is
+    reached by the expiry loop of `commit` — through the transaction cache, the deleted log or the updated log —, so the
+    instance of it that the parent cache hands out reads the committed value right after the commit, also when the
+    transaction's own instance was culled, collected or expired meanwhile. -/
+theorem C07_commit_reaches_every_written_row (dc : Bool) (ops : List Op) (close : Bool) (j : Nat) (c : Col)
+    (ho : (run (init dc) ops).obsolete = false) (hj : j < (run (init dc) ops).p.n)
+    (hw : ((run (init dc) ops).ws ((run (init dc) ops).p.insts j).key).isSome = true)
+    (hrow : (run (init dc) ops).db ((run (init dc) ops).p.insts j).key ≠ none)
+    (ha : (run (init dc) ops).p.tryGet (run (init dc) ops).dc ((run (init dc) ops).p.insts j).key = some j) :
+    (run (init dc) ops).reached ((run (init dc) ops).p.insts j).key = true
+    ∧ (step (step (run (init dc) ops) (.commit close)).1 (.read .P j c)).2
+        = freshAnswer ((step (run (init dc) ops) (.commit close)).1.db ((run (init dc) ops).p.insts j).key) c := by
+  have hl := run_wsLogged (WsLogged.init dc) ops
+  generalize run (init dc) ops = s at *
+  have hr : s.reached (s.p.insts j).key = true := by
+    rcases hl.logged _ hw with h0 | h0 | h0
+    · exact absurd h0 hrow
+    · simp [St.reached, h0]
+    · simp [St.reached, h0]
+  exact ⟨hr, (C07_commit_visible s close ho).2.2.2.2.2 j c hj hr ha⟩
+
 /-- rows deleted in the transaction stay in its deleted log until the transaction is closed or rolled back — also
     across a COMMIT the engine refused (no step of the model: nothing may change) and across earlier commits —, so the
     commit that finally succeeds still expires the parent's instance of every such row: its next read is not-found. -/
@@ -140,7 +162,7 @@ theorem C07_commit_reaches_deleted_log (s : St) (close : Bool) (h : s.obsolete =
     (ha : s.p.tryGet s.dc (s.p.insts j).key = some j) :
     (step (step s (.commit close)).1 (.read .P j c)).2
       = freshAnswer ((step s (.commit close)).1.db (s.p.insts j).key) c :=
-  (C07_commit_visible s close h).2.2.2.2.2 j c hj (by simp only [St.reached, hd, Bool.or_true]) ha
+  (C07_commit_visible s close h).2.2.2.2.2 j c hj (by simp only [St.reached, hd, Bool.or_true, Bool.true_or]) ha
 
 /-- **No stale value — partial.**  For every history whose steps stay inside `good` (any length, any number
     of commit / rollback+begin / commit(close) points), in the state reached: every read of every live
@@ -154,17 +176,17 @@ theorem C07_commit_no_stale_partial (dc : Bool) (ops : List Op) (hg : GoodHist (
         j < (run (init dc) ops).t.n → ((run (init dc) ops).t.insts j).destroyed = false →
         (step (run (init dc) ops) (.read .T j c)).2
           = freshAnswer ((run (init dc) ops).view .T ((run (init dc) ops).t.insts j).key) c) := by
-  have hi := run_inv (Inv.init dc) ops hg
+  have hi := run_inv (Inv.init dc) (WsLogged.init dc) ops hg
   refine ⟨fun j c hj hd => read_of_inv hi .P j c hj hd rfl, ?_⟩
   intro j c ho hj hd
   exact read_of_inv hi .T j c hj hd (by simp [St.refused, ho])
 
 /-- one `good` commit from any state satisfying the invariant: every live parent instance then reads the new
     committed state (= old database overridden by the write set). -/
-theorem C07_commit_step_partial (s : St) (close : Bool) (hi : Inv s) (hg : good s (.commit close) = true)
+theorem C07_commit_step_partial (s : St) (close : Bool) (hi : Inv s) (hl : WsLogged s) (hg : good s (.commit close) = true)
     (j : Nat) (c : Col) (hj : j < s.p.n) (hd : (s.p.insts j).destroyed = false) (ho : s.obsolete = false) :
     (step (step s (.commit close)).1 (.read .P j c)).2 = freshAnswer (s.view .T (s.p.insts j).key) c := by
-  have hi' := step_inv hi (.commit close) hg
+  have hi' := step_inv hi hl (.commit close) hg
   have hk : ((step s (.commit close)).1.p.insts j).key = (s.p.insts j).key := by
     simp only [step, opCommit, ho, St.commitExpire, Bool.false_eq_true, if_false]; split <;> rfl
   have hd' : ((step s (.commit close)).1.p.insts j).destroyed = false := by
@@ -195,19 +217,21 @@ def witnessParentDetached : List Op :=
 def staleCheck (ops : List Op) : Out × Option Val :=
   ((step (run (init true) ops) (.read .P 0 0)).2, ((run (init true) ops).db 1).map fun r => r 0)
 
-theorem C07_witness_culled : staleCheck witnessCulled = (.val 1, some 2) := by decide
-theorem C07_witness_tx_detached : staleCheck witnessTxDetached = (.val 1, some 3) := by decide
+/-- since /repo 6947770 (`Transaction._SO_update` logs every row written through the transaction) the first two
+    histories no longer leave a stale value: the parent's instance reads the committed value -/
+theorem C07_witness_culled_fixed : staleCheck witnessCulled = (.val 2, some 2) := by decide
+theorem C07_witness_tx_detached_fixed : staleCheck witnessTxDetached = (.val 3, some 3) := by decide
 theorem C07_witness_parent_detached : staleCheck witnessParentDetached = (.val 2, some 3) := by decide
 
 /-- **No stale value — full strength — is FALSE of the code.**  "After every history, every read of a live
-    parent-side instance answers the committed value" fails (witness (a); (b1), (b2) above are two more). -/
+    parent-side instance answers the committed value" fails (witness (b2): the parent's instance was evicted from the parent cache by an earlier `expire()`). -/
 theorem C07_commit_no_stale_full_FALSE :
     ¬ (∀ (dc : Bool) (ops : List Op) (j : Nat) (c : Col), j < (run (init dc) ops).p.n →
         ((run (init dc) ops).p.insts j).destroyed = false →
         (step (run (init dc) ops) (.read .P j c)).2
           = freshAnswer ((run (init dc) ops).db ((run (init dc) ops).p.insts j).key) c) := by
   intro h
-  have := h true witnessCulled 0 0 (by decide) (by decide)
+  have := h true witnessParentDetached 0 0 (by decide) (by decide)
   revert this
   decide
 
@@ -236,10 +260,10 @@ theorem C07_rollback_erases (s : St) (h : s.obsolete = false) :
 
 /-- one `good` rollback + begin from any state satisfying the invariant: every live transaction-side instance
     then reads the committed (pre-transaction) state. -/
-theorem C07_rollback_instances_partial (s : St) (hi : Inv s) (hg : good s .rollback = true)
+theorem C07_rollback_instances_partial (s : St) (hi : Inv s) (hl : WsLogged s) (hg : good s .rollback = true)
     (j : Nat) (c : Col) (hj : j < s.t.n) (hd : (s.t.insts j).destroyed = false) (ho : s.obsolete = false) :
     (step (step (step s .rollback).1 .begin).1 (.read .T j c)).2 = freshAnswer (s.db (s.t.insts j).key) c := by
-  have hi' := step_inv (step_inv hi .rollback hg) .begin rfl
+  have hi' := step_inv (step_inv hi hl .rollback hg) (step_wsLogged hl .rollback) .begin rfl
   have hk : ((step (step s .rollback).1 .begin).1.t.insts j).key = (s.t.insts j).key := by
     simp only [step, opRollback, ho, opBegin, St.rollbackExpire, Bool.false_eq_true, if_false, if_true]; split <;> rfl
   have hd' : ((step (step s .rollback).1 .begin).1.t.insts j).destroyed = false := by
@@ -400,7 +424,7 @@ example : ((run (init true) [.create .P 1 row10, .get .T 1 false, .set .T 0 0 2]
 example : outs (init true) [.create .P 1 row10, .get .T 1 false, .commit true, .set .T 0 0 5, .begin, .set .T 0 0 5]
     = [.inst 0, .inst 0, .ok, .assert, .ok, .ok] := by decide
 -- the witnesses are outside `good` (that is the excluded class)
-example : ¬ GoodHist (init true) witnessCulled := by decide
+example : GoodHist (init true) witnessCulled := by decide   -- no longer excluded: commit reaches the row through the updated log
 example : ¬ GoodHist (init true) witnessParentDetached := by decide
 
 /-! ## The hand model of the `Transaction` methods IS the translated source
@@ -435,10 +459,10 @@ theorem C07_translated_begin_eq_model (A : AllIDs) (s : St) (lo : Low) :
   beginX_eq A s lo
 
 open SqlObjVerif.PyTx in
-/-- `Transaction._makeObsolete()`: obsolete, deleted log emptied; autocommit switched back on iff the connection's
+/-- `Transaction._makeObsolete()`: obsolete, deleted log and updated log emptied; autocommit switched back on iff the connection's
     `autoCommit` is truthy, the low-level connection released IN EITHER CASE (`Low.release`) -/
 theorem C07_translated_makeObsolete_eq_model (A : AllIDs) (s : St) (lo : Low) (h : s.obsolete = false) :
-    makeObsoleteX A (img s lo) = .ret (img { s with obsolete := true, del := [] } lo.release) .none :=
+    makeObsoleteX A (img s lo) = .ret (img { s with obsolete := true, del := [], upd := [] } lo.release) .none :=
   makeObsoleteX_eq A s lo h
 
 open SqlObjVerif.PyTx in
@@ -449,6 +473,20 @@ theorem C07_translated_SO_delete_eq_model (A : AllIDs) (s : St) (lo : Low) (j : 
       if s.obsolete then .exc (img (soDelete s j).1 lo) ⟨.assertionError, 0⟩
       else .ret (img (soDelete s j).1 lo) .none :=
   soDeleteX_eq A s lo j
+
+open SqlObjVerif.PyTx in
+/-- `Transaction._SO_update(so, values)` = `soUpdate`: the row is logged in `_updatedCache` FIRST (also when the
+    transaction is obsolete), then `DBAPI._SO_update` runs with the transaction as `self` -/
+theorem C07_translated_SO_update_eq_model (A : AllIDs) (s : St) (lo : Low) (j : Nat) (c : Col) (v : Val) :
+    soUpdateX A (img s lo) j c v =
+      if s.obsolete then .exc (img (soUpdate s j c v).1 lo) ⟨.assertionError, 0⟩
+      else .ret (img (soUpdate s j c v).1 lo) .none :=
+  soUpdateX_eq A s lo j c v
+
+/-- … and `soUpdate` is the `_SO_update` part of the hand model's attribute assignment on the transaction side -/
+theorem C07_translated_SO_update_in_set (s : St) (j : Nat) (c : Col) (v : Val) (hj : j < s.t.n) :
+    opSet s .T j c v = afterSoUpdate (soUpdate s j c v) j c v :=
+  opSet_T_eq s j c v hj
 
 /-- … and `soDelete` is the `_SO_delete` part of the hand model's `destroySelf` on the transaction side -/
 theorem C07_translated_SO_delete_in_destroy (s : St) (j : Nat) (hj : j < s.t.n) :
